@@ -386,6 +386,63 @@ func runC19(c *Check, w *World) {
 	for _, f := range fns {
 		x.checkLoops(f, "R19.1")
 	}
+	// code that runs outside the recovering middleware — the handlers of the middlewares listed before it — has
+	// nobody to catch a panic (fasthttp does not recover): every index and slice expression there is in bounds
+	if handlerStore != nil && recFn != nil {
+		ht := tb.Of(handlerStore.Val)
+		if ht.Op == "calldyn" && len(ht.Args) == 2 && ht.Args[0].Op == "call" && len(ht.Args[0].Args) == 1 {
+			nOut := 0
+			for _, e := range varargsElems(tb, ht.Args[0].Args[0]) {
+				mw, _ := e.Val.(*ssa.Function)
+				if e.Op != "fn" || mw == nil {
+					continue
+				}
+				if mw == recFn {
+					break
+				}
+				var inner []*ssa.Function
+				var collect func(f *ssa.Function)
+				collect = func(f *ssa.Function) {
+					for _, a := range f.AnonFuncs {
+						inner = append(inner, a)
+						collect(a)
+					}
+				}
+				collect(mw)
+				for _, f := range inner {
+					f := f
+					nOut++
+					sites := 0
+					EachInstr(f, func(in ssa.Instruction) {
+						switch y := in.(type) {
+						case *ssa.IndexAddr:
+							if y.Pos().IsValid() {
+								sites++
+								x.checkIndexSite(f, in, y.X, y.Index, "R19.2")
+							}
+						case *ssa.Index:
+							if y.Pos().IsValid() {
+								sites++
+								x.checkIndexSite(f, in, y.X, y.Index, "R19.2")
+							}
+						case *ssa.Slice:
+							if y.Pos().IsValid() {
+								sites++
+								x.checkSliceSite(f, y, "R19.2")
+							}
+						case *ssa.TypeAssert:
+							if !y.CommaOk {
+								sites++
+								c.Unk("R19.2", FuncName(f), "outside-recovery:type-assertion", "a type assertion without ok outside the recovering middleware can panic with nobody to catch it", w.InstrPos(in))
+							}
+						}
+					})
+					c.OK("R19.2", FuncName(f), "outside-recovery", fmt.Sprintf("handler of a middleware outside the recovering one: %d index/slice/assertion site(s) examined", sites), w.Pos(f.Pos()))
+				}
+			}
+			_ = nOut
+		}
+	}
 	// the panic-recovery helper walks a fixed 32-entry stack buffer: its loop ends on Frames.Next's "more" flag
 	var cs *ssa.Function
 	for _, f := range w.ModuleFuncs(ApiPath) {
